@@ -6,7 +6,8 @@ package auparse
 // the kernel writes them (audit_log_untrustedstring: quoted when safe,
 // upper-case hex otherwise), for every decoded key; Data() must give the
 // original value back, plain fields must be unchanged and only placeholder
-// values may be dropped. Bound: alphabet 11, length 0..4 (16 105 values) x 7 keys.
+// values may be dropped. Bound: alphabet 11, length 0..4 (16 105 values) x 7 keys, plus the placeholder
+// neighbourhood: alphabet { , ? a space }, length 0..5 (1 365 values) and 9 explicit near-misses of (null).
 
 import (
 	"fmt"
@@ -58,6 +59,11 @@ func TestBoundedTokenizerAlpha11Len4(t *testing.T) {
 		maxLen = 6 // 1 948 717 values x 7 keys
 	}
 	gen("", maxLen)
+	// the neighbourhood of the placeholder values (?  ?,  (null)  empty): every string over { , ? a space } up to length 5
+	// and a few explicit near-misses, so that a placeholder test that is slightly too wide drops a real value here
+	alphabet = []byte{',', '?', 'a', ' '}
+	gen("", 5)
+	values = append(values, "(null)", "(null),", "(null", "null)", "(null)a", "a(null)", "?,?", ",(null)", "(NULL)")
 	cases := 0
 	reported := map[string]bool{}
 	fail := func(class, format string, a ...interface{}) {
